@@ -8,12 +8,12 @@ import PyttbModel.Heap.Table
 open Lean Pyttb Pyttb.Codec Pyttb.Heap
 namespace Pyttb.Driver
 
-def optField {β} (j : Json) (k : String) (f : Json → R β) (dflt : β) : R β :=
+private def optField {β} (j : Json) (k : String) (f : Json → R β) (dflt : β) : R β :=
   match fieldOpt j k with
   | none => .ok dflt
   | some v => f v
 
-def asParams (j : Json) : R Params := do
+private def asParams (j : Json) : R Params := do
   let perm ← optField j "perm" asNats []
   let shape ← optField j "shape" asNats []
   let copy ← optField j "copy" asBool true
@@ -25,20 +25,20 @@ def asParams (j : Json) : R Params := do
   .ok { perm, shape, copy, n, m, k, dims, flag }
 
 /-- operand i lives alone in buffer i -/
-def asOperands (j : Json) : R (List View) := do
+private def asOperands (j : Json) : R (List View) := do
   let l ← asList (fun o => do
     let s ← field o "shape" >>= asNats
     let t ← field o "strides" >>= asNats
     .ok (s, t)) j
   .ok ((List.range l.length).zip l |>.map fun (i, (s, t)) => ⟨i, 0, s, t⟩)
 
-def specName : Spec → String
+private def specName : Spec → String
   | .pureFresh => "pureFresh"
   | .noCopy _ => "noCopy"
   | .inPlace _ => "inPlace"
   | .knownAlias _ => "knownAlias"
 
-def asStep (j : Json) : R Step := do
+private def asStep (j : Json) : R Step := do
   let a ← j.getArr?
   let name ← (a.getD 0 Json.null).getStr?
   let nat (i : Nat) : R Nat := (a.getD i Json.null).getNat?
